@@ -115,15 +115,27 @@ static void c08_run(vf_case *c)
     if (fillbomb) { vf_mat B; B.m = B.n = A.n; int nn = A.n; B.nnz = 3 * (int_t)nn - 2; B.colptr = malloc(sizeof(int_t) * (size_t)(nn + 1)); B.rowind = malloc(sizeof(int_t) * (size_t)(B.nnz + 1)); B.v = malloc(sizeof(ldc) * (size_t)(B.nnz + 1)); int_t q = 0;
         for (int j = 0; j < nn; j++) { B.colptr[j] = q; if (j == 0) { for (int i = 0; i < nn; i++) { B.rowind[q] = i; B.v[q++] = P->round(i == 0 ? 4.0L : 0.5L + 0.01L * i); } } else { B.rowind[q] = 0; B.v[q++] = P->round(0.25L + 0.02L * j); B.rowind[q] = j; B.v[q++] = P->round(3.0L + 0.1L * j); } }
         B.colptr[nn] = q; mat_free(&A); A = B; vf_tag(c, "fillbomb"); }
-    int n = A.n;
     plan_t pl; memset(&pl, 0, sizeof pl);
     pl.ilu = rng_bool(r, 0.3); pl.route = rng_bool(r, 0.5); gen_run_opts(r, &o, 1); pl.rowmajor = pl.route ? o.rowmajor : 0;
+    if (pl.ilu && !fillbomb && rng_bool(r, 0.4)) {
+        /* incomplete factorization with structurally missing diagonal entries (still structurally nonsingular): columns whose L part
+           comes out empty take ?gsitrf's fill-in path, which grows lusup on its own */
+        gen_spec g2 = g; g2.drop_diag = rng_int(r, 1, 3); if (g2.pattern == PAT_DENSE || g2.pattern == PAT_LOWERDENSE) g2.pattern = PAT_BAND;
+        vf_mat A2; gen_matrix(r, P, &g2, &A2);
+        if (sprank(&A2) == A2.n) { mat_free(&A); A = A2; g = g2; vf_tag(c, "ilu-missing-diagonal"); } else mat_free(&A2);
+    }
+    int gadget = pl.ilu && !fillbomb && rng_bool(r, 0.35);
+    if (gadget) { vf_mat A2; gen_ilu_emptycol(r, P, rng_int(r, 10, c->tier ? 34 : 26), &A2); if (sprank(&A2) == A2.n) { mat_free(&A); A = A2; vf_tag(c, "ilu-emptied-column-gadget"); } else { mat_free(&A2); gadget = 0; } }
+    int n = A.n;
     gen_tuning(r, 1);
     if (rng_bool(r, 0.75)) vf_ienv_set(6, rng_bool(r, 0.7) ? 1 : rng_int(r, 2, 3));   /* small fill estimate: in-flight expansions inside the workspace */
     if (rng_bool(r, 0.4)) o.opt.ColPerm = rng_bool(r, 0.5) ? NATURAL : MY_PERMC;        /* orderings that do not fight fill: U outgrows the estimate */
     if (fillbomb) { o.opt.ColPerm = NATURAL; o.opt.SymmetricMode = NO; vf_ienv_set(6, 1);
         if (rng_bool(r, 0.6)) { vf_ienv_set(3, rng_int(r, 1, 2)); vf_ienv_set(2, 1); vf_ienv_set(7, rng_int(r, 1, 2)); } }   /* tiny supernodes: the fill lands in U's column storage */
-    if (pl.ilu) { gen_ilu_options(r, &pl.opt); pl.opt.RowPerm = rng_bool(r, 0.3) && pl.route ? LargeDiag_MC64 : NOROWPERM; ilu_options_str(&pl.opt, buf, sizeof buf); }
+    if (pl.ilu) { gen_ilu_options(r, &pl.opt); pl.opt.RowPerm = rng_bool(r, 0.3) && pl.route ? LargeDiag_MC64 : NOROWPERM;
+        if (gadget) { pl.opt.RowPerm = NOROWPERM; pl.opt.ColPerm = NATURAL; pl.opt.ILU_DropRule |= DROP_BASIC; pl.opt.ILU_DropRule &= ~NODROP; if (pl.opt.ILU_DropTol < 1e-4) pl.opt.ILU_DropTol = 1e-2; pl.opt.Equil = NO;
+                      if (rng_bool(r, 0.7)) pl.opt.ILU_FillFactor = 1.0; pl.rowmajor = 0; }
+        ilu_options_str(&pl.opt, buf, sizeof buf); }
     else { set_default_options(&pl.opt); pl.opt.ColPerm = o.opt.ColPerm; pl.opt.DiagPivotThresh = o.opt.DiagPivotThresh; pl.opt.SymmetricMode = o.opt.SymmetricMode; pl.opt.PrintStat = NO; pl.opt.Equil = o.opt.Equil; run_opts_str(&o, buf, sizeof buf); }
     pl.opt.PivotGrowth = NO; pl.opt.ConditionNumber = NO; pl.opt.IterRefine = NOREFINE;
     int *mypc = malloc(sizeof(int) * (size_t)(n + 1)); rng_perm(r, mypc, n); pl.mypc = mypc;
